@@ -221,53 +221,138 @@ def oracle(ctx, factor, seeds):
     return o
 
 
+MAPPED_ANALYTIC = {
+    'x**2': lambda x: x[0] ** 2,
+    'x*y + sin(y)': lambda x: x[0] * x[-1] + sympy.sin(x[-1]),
+    'exp(x)': lambda x: sympy.exp(x[0]),
+    'x*y': lambda x: x[0] * x[-1],
+}
+FLOAT_MTYPES = ('affinef', 'collela')      # floating-point coefficients, metric with off-diagonal entries
+
+
+def mapped_corpus():
+    """fixed mapped cases (key, mapping type, dim, class name, kind, vector?, route, analytic part)
+
+    * the pull-back-first route TerminalExpr(LogicalExpr(Norm(u - f, D), D), D.logical_domain) with a
+      non-constant analytic part (seeded change C11-9: the deferred LogicalExpr(Grad(f), D) nodes were
+      lowered on the logical domain and vanished);
+    * mappings with floating-point coefficients that are not orthogonal, every kind of norm and
+      semi-norm, scalar and vector (seeded change C11-10: the determinant of a float metric lost the
+      sign of its off-diagonal cofactor)."""
+    out = []
+    for mt, dim in (('polar', 2), ('affine', 2), ('poly', 2), ('affine', 3)):
+        for kind, f in (('h1', 'x*y + sin(y)'), ('h1', 'exp(x)'), ('l2', 'x*y + sin(y)')):
+            if dim == 3 and f == 'exp(x)':
+                continue
+            out.append(('corpus:mapped norm pull-back-first %s %s %dd u - (%s)' % (kind, mt, dim, f),
+                        mt, dim, 'Norm', kind, False, 'pull-lower', f))
+    for mt, dim in (('affinef', 2), ('collela', 2), ('affinef', 3)):
+        for cn, kind in (('Norm', 'l2'), ('Norm', 'h1'), ('SemiNorm', 'h1'), ('Norm', 'h2'), ('SemiNorm', 'h2')):
+            if kind == 'h2' and mt == 'collela':
+                continue
+            out.append(('corpus:mapped %s %s float %s %dd scalar' % (cn, kind, mt, dim),
+                        mt, dim, cn, kind, False, 'lower-pull', 'x*y + sin(y)'))
+        out.append(('corpus:mapped Norm h1 float %s %dd vector' % (mt, dim), mt, dim, 'Norm', 'h1', True, 'lower-pull', 'x*y'))
+        out.append(('corpus:mapped SemiNorm l2 float %s %dd vector' % (mt, dim), mt, dim, 'SemiNorm', 'l2', True, 'lower-pull', 'x**2'))
+        out.append(('corpus:mapped norm pull-back-first h1 float %s %dd u - (exp(x))' % (mt, dim),
+                    mt, dim, 'Norm', 'h1', False, 'pull-lower', 'exp(x)'))
+    return out
+
+
 def mapped_norm_cases(ctx, o, n):
-    """the two-step route named in C03/C04: the evaluated norm kernel pulled back to logical
-    coordinates, LogicalExpr(TerminalExpr(Norm(e, D), D)[0], D), on orientation preserving and
-    reversing mappings: it must be (Sobolev integrand at F(x̂)) · sqrt(det(JᵀJ)) = · |det J|
-    (added after seed C11-2)"""
+    """a norm on a mapped domain, transformed to logical coordinates by one of two routes:
+    'lower-pull'  LogicalExpr(TerminalExpr(Norm(e, D), D)[0], D)  (the evaluated kernel pulled back; the
+                  two-step route named in C03/C04, added after seed C11-2), and
+    'pull-lower'  TerminalExpr(LogicalExpr(Norm(e, D), D), D.logical_domain)[0]  (the norm pulled back
+                  first, lowered on the logical domain; added after seed C11-9; scalar Norm l2/h1 only:
+                  the code refuses the rest).
+    On orientation preserving and reversing mappings, with exact and with floating-point coefficients,
+    the result must be (Sobolev integrand at F(x̂)) · sqrt(det(JᵀJ)) = · |det J|."""
+    from harness.mapenv import MEnv
+    rng = ctx.rng
+    for key, mt, dim, cn, kind, vec, route, f in mapped_corpus():
+        env = MEnv(rng, dim, mt, tag='c11k', kinds=('h1', 'undefined'))
+        mapped_case(ctx, o, env, cn, kind, vec, route, f, key)
+    cycle = ['polyneg', 'poly', 'polyneg', 'affine', 'sym', 'affinef', 'polar', 'collela', 'affine']
+    for i in range(n):
+        mt = cycle[i % len(cycle)]
+        dim = rng.choice([1, 2, 2, 3])
+        if mt in ('polar', 'collela'):
+            dim = 2
+        elif mt == 'affinef':
+            dim = rng.choice([2, 2, 3])
+        env = MEnv(rng, dim, mt, tag='c11m', kinds=('h1', 'undefined'))
+        kind = rng.choice(['l2', 'h1'])
+        cn = rng.choice(['Norm', 'SemiNorm']) if kind == 'h1' else 'Norm'
+        f = rng.choice(['x**2', 'x**2', 'x*y + sin(y)', 'exp(x)', 'x*y'])
+        route, vec = 'lower-pull', False
+        if cn == 'Norm' and rng.random() < 0.5:
+            route = 'pull-lower'
+        elif dim > 1 and mt not in ('sym', 'collela') and rng.random() < 0.3:
+            vec = True
+        key = 'corpus:mapped norm kernel %s %s %dd' % (kind, mt, dim) if i < 5 else None
+        mapped_case(ctx, o, env, cn, kind, vec, route, f, key)
+
+
+def mapped_case(ctx, o, env, cn, kind, vec, route, f, key):
     from sympde.expr import Norm, SemiNorm, TerminalExpr
     from sympde.topology.mapping import LogicalExpr
-    from harness.mapenv import MEnv, MapInst, pulled_back_fields
+    from harness.mapenv import MapInst, pulled_back_fields
     from harness.inst import PHYS, LOGI
-    rng = ctx.rng
-    for i in range(n):
-        dim = rng.choice([1, 2, 2, 3])
-        mt = ['polyneg', 'poly', 'polyneg', 'affine', 'sym'][i % 5]
-        env = MEnv(rng, dim, mt, tag='c11m', kinds=('h1',))
-        u = env.sf['h1'][0]
-        kind = rng.choice(['l2', 'h1'])
-        cls = rng.choice([Norm, SemiNorm]) if kind == 'h1' else Norm
-        e = u - env.coords[0] ** 2
-        name = 'LogicalExpr(TerminalExpr(%s(%s, kind=%s))) on a %s mapping, dim %d' % (cls.__name__, e, kind, mt, dim)
-        key = 'corpus:mapped norm kernel %s %s %dd' % (kind, mt, dim) if i < 5 else None
-        o.evaluations += 1
-        try:
-            with time_limit(60):
-                t = TerminalExpr(cls(e, env.domain, kind=kind), env.domain)
+    rng, dim, mt = ctx.rng, env.dim, env.mtype
+    cls = {'Norm': Norm, 'SemiNorm': SemiNorm}[cn]
+    fx = MAPPED_ANALYTIC[f](env.coords)
+    sk = 'undefined' if kind == 'h2' else 'h1'      # the Hessian is defined on spaces of undefined kind only
+    if vec:
+        F = env.vf[sk][0]
+        e = sympy.Matrix([F[i] - (fx if i == 0 else env.coords[i]) for i in range(dim)])
+    else:
+        e = env.sf[sk][0] - fx
+    shown = list(e) if vec else e
+    if route == 'pull-lower':
+        name = 'TerminalExpr(LogicalExpr(%s(%s, kind=%s))) on a %s mapping, dim %d' % (cn, shown, kind, mt, dim)
+    else:
+        name = 'LogicalExpr(TerminalExpr(%s(%s, kind=%s))) on a %s mapping, dim %d' % (cn, shown, kind, mt, dim)
+    o.evaluations += 1
+    kexpr = None
+    try:
+        with time_limit(60):
+            norm = cls(e, env.domain, kind=kind)
+            if route == 'pull-lower':
+                t = TerminalExpr(LogicalExpr(norm, env.domain), env.logical_domain)
+                if len(t) != 1:
+                    raise ValueError('kernels:%d' % len(t))
+                k = t[0]
+            else:
+                t = TerminalExpr(norm, env.domain)
                 k = LogicalExpr(t[0], env.domain)
-                kexpr = k.expr[0] if hasattr(k.expr, 'shape') else k.expr
-                pins = Inst(rng, dim, PHYS[:dim])
-                F, cst = env.concrete(rng)
-                pins.cst = dict(cst)
-                comps = [pins.inst(e)]
-                truth = sobolev(pins, comps, kind, cls.__name__ == 'SemiNorm')
-                truth = sympy.sympify(truth).subs({PHYS[j]: F[j] for j in range(dim)}, simultaneous=True)
-                sfs, vfs, J, det = pulled_back_fields(env, pins, F)
-                truth = truth * sympy.sqrt((J.T * J).det())
-                lins = MapInst(rng, dim, F, pins.cst)
-                lins.sf, lins.vf = dict(sfs), dict(vfs)
-                got = lins.inst(kexpr)
-                ok = same_value(got, truth, LOGI[:dim], rng, numeric=True)
-        except (NotImplementedError, Timeout):
-            o.count('skipped:mapped')
-            continue
-        except Exception as ex:
-            o.fail(key or ('fail:' + name), '%s raised %s' % (name, type(ex).__name__))
-            continue
-        o.count('mapped:%s:%s' % (kind, mt))
-        if ok is False:
-            o.fail(key or ('value:' + name), 'the logical kernel of %s is %s, not (Sobolev integrand at F)·sqrt(det(JᵀJ))' % (name, str(kexpr)[:300]))
+            kexpr = k.expr[0] if hasattr(k.expr, 'shape') else k.expr
+            pins = Inst(rng, dim, PHYS[:dim])
+            F, cst = env.concrete(rng)
+            pins.cst = dict(cst)
+            comps = [pins.inst(c) for c in (list(e) if vec else [e])]
+            truth = sobolev(pins, comps, kind, cn == 'SemiNorm')
+            truth = sympy.sympify(truth).subs({PHYS[j]: F[j] for j in range(dim)}, simultaneous=True)
+            sfs, vfs, J, det = pulled_back_fields(env, pins, F)
+            truth = truth * sympy.sqrt((J.T * J).det())
+            lins = MapInst(rng, dim, F, pins.cst)
+            lins.sf, lins.vf = dict(sfs), dict(vfs)
+            got = lins.inst(kexpr)
+            # float coefficients: the code computes in 15-digit arithmetic (the ground truth of the
+            # dyadic affine mapping is exact)
+            floats = mt in FLOAT_MTYPES or bool(sympy.sympify(got).atoms(sympy.Float) or truth.atoms(sympy.Float))
+            ok = same_value(got, truth, LOGI[:dim], rng, numeric=True, tol=1e-9 if floats else 1e-35)
+    except (NotImplementedError, Timeout):
+        o.count('skipped:mapped')
+        return
+    except Exception as ex:
+        o.fail(key or ('fail:' + name), '%s raised %s' % (name, type(ex).__name__))
+        return
+    o.count('mapped:%s:%s:%s%s' % (route, kind, mt, ':vector' if vec else ''))
+    if ok is None:
+        o.count('undecided:mapped')
+    if ok is False:
+        o.fail(key or ('value:' + name), 'the logical kernel of %s is %s, not (Sobolev integrand at F)·sqrt(det(JᵀJ))' % (name, str(kexpr)[:300]))
 
 
 def replay(ctx, path):
